@@ -66,7 +66,14 @@ static int vk_hostile(vc_rng *r,unsigned char *b,int cap,int sd){
   if(!vbr&&M>0&&tot>budget){ for(int i=0;i<M;i++) sizes[i]=0; tot=0; }
   if(vbr) for(int i=0;i<M-1;i++) pos+=vk_put_len(b+pos,sizes[i]);
   if(sd&&M>0) pos+=vk_put_len(b+pos,sizes[M-1]);
-  for(int i=0;i<tot&&pos<cap;i++) b[pos++]=vc_u32(r);
+  { /* payload styles: the range decoder maps byte extremes to symbol extremes, so low-entropy payloads (runs of
+       0xFF / 0x00 after a short random prefix) reach extreme energies, pulse counts, gains and lags */
+    int style=vc_below(r,8); static const unsigned char alpha[6]={0x00,0xFF,0x80,0x7F,0x01,0xFE}; int run=0; unsigned char rv=0; int prefix=vc_range(r,0,10);
+    for(int i=0;i<tot&&pos<cap;i++){ unsigned char v;
+      if(style<4||i<prefix&&style!=5) v=vc_u32(r);
+      else if(style==4) v=0xFF; else if(style==5) v=alpha[vc_below(r,6)];
+      else { if(run<=0){ run=vc_range(r,1,style==6?80:12); rv=vc_chance(r,1,2)?0xFF:(vc_chance(r,1,2)?0x00:(unsigned char)vc_u32(r)); } run--; v=rv; }
+      b[pos++]=v; } }
   /* SILK/hybrid payloads: make first bytes look like plausible headers sometimes */
   for(int i=0;i<pad&&pos<cap;i++) b[pos++]=vc_chance(r,1,2)?0:vc_u32(r);
   if(vc_chance(r,1,12)&&pos>1) pos-=vc_below(r,pos<6?pos:6);
